@@ -320,6 +320,23 @@ theorem empty_declared : ∀ s ∈ schemas, ∀ n : Nat,
   intro s hs n
   exact ⟨key s hs, (emptyF_rows s n).1⟩
 
+/-- `cls.empty(n)`: every row has every declared field, and no value is missing (no NaN) — every list class,
+the Quaver note lists included (post-D08) -/
+theorem empty_no_missing : ∀ s ∈ schemas, ∀ n : Nat,
+    noMissing (rows (emptyF s n).rows) = true ∧ rowsHaveFields s.declaredNames (rows (emptyF s n).rows) = true := by
+  have key : ∀ s ∈ schemas, (s.defaultRow.all fun kv => kv.2 != Cell.nan) = true ∧
+      sameFields (s.defaultRow.map (·.1)) s.declaredNames = true := by decide
+  intro s hs n
+  have hr := (emptyF_rows s n).2
+  constructor
+  · unfold noMissing; rw [List.all_eq_true]; intro r hrm; rw [hr r hrm]; exact (key s hs).1
+  · unfold rowsHaveFields; rw [List.all_eq_true]; intro r hrm; rw [hr r hrm]; exact (key s hs).2
+
+/-- before the repair of D08 the rows of `QuaHitList.empty(n)` had NaN for `keysounds` -/
+theorem empty_nan_counterexample :
+    ∃ s ∈ schemas, s.name = "QuaHitList" ∧ (s.defaultRowOld.all fun kv => kv.2 != Cell.nan) = false := by
+  decide
+
 /-- the same for `cls([])` -/
 theorem nil_declared : ∀ s ∈ schemas, hasDeclaredFields s (emptyFrame s).cols = true := by decide
 
